@@ -203,9 +203,13 @@ def rand_scenario(rng):
             sc.hosts[h] = [rng.choice(pool) for _ in range(n)]
     ports = sorted({r[2] for r in recs} | {5222, 5223, 5347, 7777})
     weights = rng.choice([[4, 2, 2, 2, 1], [6, 1, 1, 1, 0], [2, 3, 3, 1, 1], [1, 1, 1, 6, 1]])
-    for a in pool:
+    used = sorted({a for al in sc.hosts.values() for a in al})
+    for a in used:
         for p in ports:
-            sc.eps[(a, p)] = rng.choices(BEHS, weights=weights)[0]
+            b = rng.choices(BEHS, weights=weights)[0]
+            # unscripted endpoints refuse: say so explicitly only now and then
+            if b != "refuse" or rng.random() < 0.25:
+                sc.eps[(a, p)] = b
     return sc, dom, recs
 
 
